@@ -59,111 +59,172 @@ theorem All₂.exists_right {α β : Type} {R : α → β → Prop} :
   | [], _ :: _, hf, _, _ => hf.elim
   | _ :: _, [], hf, _, _ => hf.elim
 
+theorem All₂.getElem? {α β : Type} {R : α → β → Prop} :
+    ∀ {l₁ : List α} {l₂ : List β}, All₂ R l₁ l₂ → ∀ (i : Nat) (a : α) (b : β), l₁[i]? = some a → l₂[i]? = some b → R a b
+  | [], [], _, i, a, _, h, _ => by simp at h
+  | x :: _, y :: _, ⟨h1, _⟩, 0, a, b, ha, hb => by
+    simp at ha hb; subst ha; subst hb; exact h1
+  | _ :: _, _ :: _, ⟨_, h2⟩, i + 1, a, b, ha, hb => by
+    simp only [List.getElem?_cons_succ] at ha hb
+    exact All₂.getElem? h2 i a b ha hb
+  | [], _ :: _, hf, _, _, _, _, _ => hf.elim
+  | _ :: _, [], hf, _, _, _, _, _ => hf.elim
+
 /-! ### mid assignment -/
 
-/-- transceivers renumbered `a, a+1, …` -/
-def withMids (a : Int) : List Transceiver → List Transceiver
-  | [] => []
-  | t :: ts => { t with mid := some a } :: withMids (a + 1) ts
-
-/-- mids are `a, a+1, …` on a prefix and unset on the rest -/
-def MidsFrom (a : Int) : List Transceiver → Prop
+/-- mids are strictly increasing (and above `lo`) on a prefix of the list and unset on the rest -/
+def Sorted (lo : Int) : List Transceiver → Prop
   | [] => True
-  | t :: ts => (t.mid = some a ∧ MidsFrom (a + 1) ts) ∨ (∀ u ∈ t :: ts, u.mid = none)
+  | t :: ts => (∃ m, t.mid = some m ∧ lo < m ∧ Sorted m ts) ∨ (∀ u ∈ t :: ts, u.mid = none)
 
-/-- number of transceivers that already have a mid -/
-def assigned : List Transceiver → Nat
-  | [] => 0
-  | t :: ts => (if t.mid.isSome then 1 else 0) + assigned ts
+/-- every mid in use is at most `g` -/
+def Bounded (g : Int) (ts : List Transceiver) : Prop := ∀ t ∈ ts, ∀ m, t.mid = some m → m ≤ g
 
-theorem assigned_of_all_none : ∀ (ts : List Transceiver), (∀ u ∈ ts, u.mid = none) → assigned ts = 0
-  | [], _ => rfl
-  | t :: ts, h => by
-    have h1 : t.mid = none := h t (by simp)
-    have h2 := assigned_of_all_none ts (fun u hu => h u (by simp [hu]))
-    simp [assigned, h1, h2]
-
-theorem midsFrom_of_all_none : ∀ (a : Int) (ts : List Transceiver), (∀ u ∈ ts, u.mid = none) → MidsFrom a ts
+theorem sorted_of_all_none : ∀ (lo : Int) (ts : List Transceiver), (∀ u ∈ ts, u.mid = none) → Sorted lo ts
   | _, [], _ => trivial
   | _, _ :: _, h => Or.inr h
 
-theorem withMids_length : ∀ (a : Int) (ts : List Transceiver), (withMids a ts).length = ts.length
-  | _, [] => rfl
-  | a, _ :: ts => by simp [withMids, withMids_length (a + 1) ts]
+theorem sorted_gt : ∀ (lo : Int) (ts : List Transceiver), Sorted lo ts → ∀ u ∈ ts, ∀ x, u.mid = some x → lo < x
+  | _, [], _, u, hu, _, _ => by simp at hu
+  | lo, t :: ts, h, u, hu, x, hx => by
+    rcases h with ⟨m, hm, hlt, hrest⟩ | hn
+    · simp only [List.mem_cons] at hu
+      rcases hu with rfl | hu
+      · rw [hm] at hx; cases hx; exact hlt
+      · have := sorted_gt m ts hrest u hu x hx
+        omega
+    · rw [hn u hu] at hx; cases hx
 
-theorem assignMids_spec : ∀ (ts : List Transceiver) (a g : Int), MidsFrom a ts → g = a - 1 + assigned ts →
-    assignMids ts g = (withMids a ts, a - 1 + ts.length)
-  | [], a, g, _, hg => by simp [assignMids, withMids, assigned] at *; omega
-  | t :: ts, a, g, hm, hg => by
-    rcases hm with ⟨hmid, hrest⟩ | hnone
-    · have ih := assignMids_spec ts (a + 1) g hrest (by simp [assigned, hmid] at hg; omega)
-      have hle : ¬ a > g := by simp [assigned, hmid] at hg; omega
-      have ht : ({ t with mid := some a } : Transceiver) = t := by cases t; simp_all
-      simp only [assignMids, hmid, hle, if_false, ih, withMids, ht, List.length_cons]
-      congr 1; push_cast; omega
-    · have h1 : t.mid = none := hnone t (by simp)
-      have hr : ∀ u ∈ ts, u.mid = none := fun u hu => hnone u (by simp [hu])
-      have h0 : assigned (t :: ts) = 0 := assigned_of_all_none _ hnone
-      obtain rfl : a = g + 1 := by rw [h0] at hg; omega
-      have ih := assignMids_spec ts (g + 1 + 1) (g + 1) (midsFrom_of_all_none _ _ hr)
-        (by rw [assigned_of_all_none ts hr]; omega)
-      simp only [assignMids, h1, ih, withMids, List.length_cons]
-      congr 1; push_cast; omega
+/-- different positions of a sorted list carry different mids: equal (set) mids, equal transceivers -/
+theorem sorted_inj : ∀ (lo : Int) (ts : List Transceiver), Sorted lo ts → ∀ t ∈ ts, ∀ u ∈ ts,
+    t.mid = u.mid → t.mid.isSome = true → t = u
+  | _, [], _, t, ht, _, _, _, _ => by simp at ht
+  | lo, x :: ts, h, t, ht, u, hu, he, hs => by
+    rcases h with ⟨m, hm, _, hrest⟩ | hn
+    · simp only [List.mem_cons] at ht hu
+      rcases ht with rfl | ht <;> rcases hu with rfl | hu
+      · rfl
+      · exfalso
+        have := sorted_gt m ts hrest u hu m (by rw [← he, hm])
+        omega
+      · exfalso
+        have := sorted_gt m ts hrest t ht m (by rw [he, hm])
+        omega
+      · exact sorted_inj m ts hrest t ht u hu he hs
+    · rw [hn t ht] at hs; cases hs
 
-theorem midsFrom_withMids : ∀ (a : Int) (ts : List Transceiver), MidsFrom a (withMids a ts)
-  | _, [] => trivial
-  | a, _ :: ts => Or.inl ⟨rfl, midsFrom_withMids (a + 1) ts⟩
+theorem raiseMid_ge (g : Int) (m : Option Int) : g ≤ raiseMid g m := by
+  cases m with
+  | none => simp [raiseMid]
+  | some x => simp only [raiseMid]; split <;> omega
 
-theorem assigned_withMids : ∀ (a : Int) (ts : List Transceiver), assigned (withMids a ts) = ts.length
-  | _, [] => rfl
-  | a, _ :: ts => by simp [withMids, assigned, assigned_withMids (a + 1) ts]; omega
+theorem raiseAll_ge : ∀ (l : List (Option Int)) (g : Int), g ≤ raiseAll g l
+  | [], _ => by simp [raiseAll]
+  | m :: ms, g => by
+    have h1 := raiseMid_ge g m
+    have h2 := raiseAll_ge ms (raiseMid g m)
+    simp only [raiseAll]; omega
 
-theorem withMids_idem : ∀ (a : Int) (ts : List Transceiver), withMids a (withMids a ts) = withMids a ts
-  | _, [] => rfl
-  | a, _ :: ts => by simp [withMids, withMids_idem (a + 1) ts]
-
-/-- every mid after renumbering lies in `[a, a + length)` -/
-theorem withMids_mid_range : ∀ (a : Int) (ts : List Transceiver) (t : Transceiver), t ∈ withMids a ts →
-    ∃ m : Int, t.mid = some m ∧ a ≤ m ∧ m < a + ts.length
-  | _, [], _, h => by simp [withMids] at h
-  | a, _ :: ts, t, h => by
-    simp only [withMids, List.mem_cons] at h
+theorem raiseAll_mem : ∀ (l : List (Option Int)) (g : Int) (x : Int), some x ∈ l → x ≤ raiseAll g l
+  | [], _, _, h => by simp at h
+  | m :: ms, g, x, h => by
+    simp only [List.mem_cons] at h
+    simp only [raiseAll]
     rcases h with rfl | h
-    · exact ⟨a, rfl, by omega, by simp; omega⟩
-    · obtain ⟨m, hm, h1, h2⟩ := withMids_mid_range (a + 1) ts t h
-      exact ⟨m, hm, by omega, by simp; omega⟩
+    · have h2 := raiseAll_ge ms (raiseMid g (some x))
+      have h1 : x ≤ raiseMid g (some x) := by simp only [raiseMid]; split <;> omega
+      omega
+    · exact raiseAll_mem ms _ x h
 
-/-- renumbered transceivers have pairwise different mids: equal mids, equal transceivers -/
-theorem withMids_mid_inj : ∀ (a : Int) (ts : List Transceiver) (t u : Transceiver),
-    t ∈ withMids a ts → u ∈ withMids a ts → t.mid = u.mid → t = u
-  | _, [], _, _, h, _, _ => by simp [withMids] at h
-  | a, x :: ts, t, u, ht, hu, he => by
-    simp only [withMids, List.mem_cons] at ht hu
-    rcases ht with rfl | ht <;> rcases hu with rfl | hu
-    · rfl
-    · obtain ⟨m, hm, h1, _⟩ := withMids_mid_range (a + 1) ts u hu
-      simp [hm] at he; omega
-    · obtain ⟨m, hm, h1, _⟩ := withMids_mid_range (a + 1) ts t ht
-      simp [hm] at he; omega
-    · exact withMids_mid_inj (a + 1) ts t u ht hu he
+theorem raiseAll_eq : ∀ (l : List (Option Int)) (g : Int), (∀ x, some x ∈ l → x ≤ g) → raiseAll g l = g
+  | [], _, _ => rfl
+  | m :: ms, g, h => by
+    have hm : raiseMid g m = g := by
+      cases m with
+      | none => rfl
+      | some x =>
+        have := h x (by simp)
+        simp only [raiseMid]; split <;> omega
+    simp only [raiseAll, hm]
+    exact raiseAll_eq ms g (fun x hx => h x (by simp [hx]))
 
-/-- renumbering only touches the mid -/
-theorem withMids_forall₂ : ∀ (a : Int) (ts : List Transceiver),
-    All₂ (fun t t' => t' = { t with mid := t'.mid }) ts (withMids a ts)
-  | _, [] => trivial
-  | a, _ :: ts => ⟨rfl, withMids_forall₂ (a + 1) ts⟩
+/-- the numbering loop keeps the list sorted, numbers everything, and returns a bound of all mids -/
+theorem numberMids_spec : ∀ (ts : List Transceiver) (lo g : Int), Sorted lo ts → Bounded g ts → lo ≤ g →
+    Sorted lo (numberMids ts g).1 ∧ Bounded (numberMids ts g).2 (numberMids ts g).1 ∧ g ≤ (numberMids ts g).2 ∧
+    ∀ t ∈ (numberMids ts g).1, t.mid.isSome = true
+  | [], _, g, _, _, _ => by
+    refine ⟨trivial, ?_, by simp [numberMids], ?_⟩
+    · intro t ht; simp [numberMids] at ht
+    · intro t ht; simp [numberMids] at ht
+  | t :: ts, lo, g, hs, hb, hle => by
+    cases hm : t.mid with
+    | some m =>
+      rcases hs with ⟨m', hm', hlt, hrest⟩ | hn
+      · rw [hm] at hm'; cases hm'
+        have hmg : m ≤ g := hb t (by simp) m hm
+        have ih := numberMids_spec ts m g hrest (fun u hu => hb u (by simp [hu])) hmg
+        simp only [numberMids, hm]
+        refine ⟨Or.inl ⟨m, hm, hlt, ih.1⟩, ?_, ih.2.2.1, ?_⟩
+        · intro u hu x hx
+          simp only [List.mem_cons] at hu
+          rcases hu with rfl | hu
+          · rw [hm] at hx; cases hx; have := ih.2.2.1; omega
+          · exact ih.2.1 u hu x hx
+        · intro u hu
+          simp only [List.mem_cons] at hu
+          rcases hu with rfl | hu
+          · rw [hm]; rfl
+          · exact ih.2.2.2 u hu
+      · have := hn t (by simp); rw [hm] at this; cases this
+    | none =>
+      have hnone : ∀ u ∈ ts, u.mid = none := by
+        rcases hs with ⟨m', hm', _, _⟩ | hn
+        · rw [hm] at hm'; cases hm'
+        · exact fun u hu => hn u (by simp [hu])
+      have ih := numberMids_spec ts (g + 1) (g + 1) (sorted_of_all_none _ _ hnone)
+        (fun u hu x hx => by rw [hnone u hu] at hx; cases hx) (by omega)
+      simp only [numberMids, hm]
+      refine ⟨Or.inl ⟨g + 1, rfl, by omega, ih.1⟩, ?_, by have := ih.2.2.1; omega, ?_⟩
+      · intro u hu x hx
+        simp only [List.mem_cons] at hu
+        rcases hu with rfl | hu
+        · simp only [Option.some.injEq] at hx; have := ih.2.2.1; omega
+        · exact ih.2.1 u hu x hx
+      · intro u hu
+        simp only [List.mem_cons] at hu
+        rcases hu with rfl | hu
+        · rfl
+        · exact ih.2.2.2 u hu
 
-/-! ### `MidsFrom` / `assigned` only look at the mids -/
+/-- numbering only touches unset mids -/
+theorem numberMids_rel : ∀ (ts : List Transceiver) (g : Int),
+    All₂ (fun t t' => t' = { t with mid := t'.mid }) ts (numberMids ts g).1
+  | [], _ => trivial
+  | t :: ts, g => by
+    cases hm : t.mid with
+    | some m => simp only [numberMids, hm]; exact ⟨by cases t; simp_all, numberMids_rel ts g⟩
+    | none => simp only [numberMids, hm]; exact ⟨rfl, numberMids_rel ts (g + 1)⟩
 
-theorem midsFrom_congr : ∀ (a : Int) (l l' : List Transceiver), l.map (·.mid) = l'.map (·.mid) →
-    MidsFrom a l → MidsFrom a l'
+theorem numberMids_id : ∀ (ts : List Transceiver) (g : Int), (∀ t ∈ ts, t.mid.isSome = true) →
+    numberMids ts g = (ts, g)
+  | [], _, _ => rfl
+  | t :: ts, g, h => by
+    cases hm : t.mid with
+    | some m =>
+      simp only [numberMids, hm, numberMids_id ts g (fun u hu => h u (by simp [hu]))]
+    | none => have := h t (by simp); rw [hm] at this; cases this
+
+/-! ### `Sorted` / `Bounded` only look at the mids -/
+
+theorem sorted_congr : ∀ (lo : Int) (l l' : List Transceiver), l.map (·.mid) = l'.map (·.mid) →
+    Sorted lo l → Sorted lo l'
   | _, [], [], _, _ => trivial
   | _, [], _ :: _, h, _ => by simp at h
   | _, _ :: _, [], h, _ => by simp at h
-  | a, t :: ts, t' :: ts', h, hm => by
+  | lo, t :: ts, t' :: ts', h, hm => by
     simp only [List.map_cons, List.cons.injEq] at h
-    rcases hm with ⟨h1, h2⟩ | hn
-    · exact Or.inl ⟨h.1 ▸ h1, midsFrom_congr (a + 1) ts ts' h.2 h2⟩
+    rcases hm with ⟨m, h1, h2, h3⟩ | hn
+    · exact Or.inl ⟨m, h.1 ▸ h1, h2, sorted_congr m ts ts' h.2 h3⟩
     · refine Or.inr ?_
       have hall : ∀ m ∈ (t :: ts).map (·.mid), m = none := by
         intro m hm'
@@ -174,13 +235,13 @@ theorem midsFrom_congr : ∀ (a : Int) (l l' : List Transceiver), l.map (·.mid)
       rw [List.map_cons, h.1, h.2, ← List.map_cons]
       exact List.mem_map.2 ⟨u, hu, rfl⟩
 
-theorem assigned_congr : ∀ (l l' : List Transceiver), l.map (·.mid) = l'.map (·.mid) → assigned l = assigned l'
-  | [], [], _ => rfl
-  | [], _ :: _, h => by simp at h
-  | _ :: _, [], h => by simp at h
-  | t :: ts, t' :: ts', h => by
-    simp only [List.map_cons, List.cons.injEq] at h
-    simp [assigned, h.1, assigned_congr ts ts' h.2]
+theorem bounded_congr (g : Int) (l l' : List Transceiver) (h : l.map (·.mid) = l'.map (·.mid))
+    (hb : Bounded g l) : Bounded g l' := by
+  intro t' ht' m hm
+  have : t'.mid ∈ l'.map (·.mid) := List.mem_map.2 ⟨t', ht', rfl⟩
+  rw [← h] at this
+  obtain ⟨t, ht, he⟩ := List.mem_map.1 this
+  exact hb t ht m (by rw [he, hm])
 
 theorem map_mid_set : ∀ (l : List Transceiver) (i : Nat) (t t' : Transceiver), l[i]? = some t → t'.mid = t.mid →
     (l.set i t').map (·.mid) = l.map (·.mid)
@@ -190,12 +251,12 @@ theorem map_mid_set : ∀ (l : List Transceiver) (i : Nat) (t t' : Transceiver),
   | x :: xs, i + 1, t, t', h, hm => by
     simp at h; simp [map_mid_set xs i t t' h hm]
 
-theorem midsFrom_append_none : ∀ (a : Int) (l : List Transceiver) (t : Transceiver), t.mid = none →
-    MidsFrom a l → MidsFrom a (l ++ [t])
+theorem sorted_append_none : ∀ (lo : Int) (l : List Transceiver) (t : Transceiver), t.mid = none →
+    Sorted lo l → Sorted lo (l ++ [t])
   | _, [], t, h, _ => Or.inr (by simpa using h)
-  | a, x :: xs, t, h, hm => by
-    rcases hm with ⟨h1, h2⟩ | hn
-    · exact Or.inl ⟨h1, midsFrom_append_none (a + 1) xs t h h2⟩
+  | lo, x :: xs, t, h, hm => by
+    rcases hm with ⟨m, h1, h2, h3⟩ | hn
+    · exact Or.inl ⟨m, h1, h2, sorted_append_none m xs t h h3⟩
     · refine Or.inr ?_
       show ∀ u ∈ x :: (xs ++ [t]), u.mid = none
       intro u hu
@@ -205,10 +266,59 @@ theorem midsFrom_append_none : ∀ (a : Int) (l : List Transceiver) (t : Transce
       · exact hn _ (by simp [hu])
       · exact h
 
-theorem assigned_append_none : ∀ (l : List Transceiver) (t : Transceiver), t.mid = none →
-    assigned (l ++ [t]) = assigned l
-  | [], t, h => by simp [assigned, h]
-  | x :: xs, t, h => by simp [assigned, assigned_append_none xs t h]
+/-! ### the application section's mid -/
+
+/-- how many section ids are numbers `≥ c` -/
+def countGe (c : Int) : List (Option Int) → Nat
+  | [] => 0
+  | some m :: r => (if c ≤ m then 1 else 0) + countGe c r
+  | none :: r => countGe c r
+
+theorem countGe_le_length : ∀ (c : Int) (l : List (Option Int)), countGe c l ≤ l.length
+  | _, [] => by simp [countGe]
+  | c, some m :: r => by have := countGe_le_length c r; simp only [countGe, List.length_cons]; split <;> omega
+  | c, none :: r => by have := countGe_le_length c r; simp only [countGe, List.length_cons]; omega
+
+theorem countGe_succ_le : ∀ (c : Int) (l : List (Option Int)), countGe (c + 1) l ≤ countGe c l
+  | _, [] => by simp [countGe]
+  | c, some m :: r => by
+    have := countGe_succ_le c r
+    simp only [countGe]; split <;> split <;> omega
+  | c, none :: r => by simpa [countGe] using countGe_succ_le c r
+
+theorem countGe_succ_lt : ∀ (c : Int) (l : List (Option Int)), some c ∈ l → countGe (c + 1) l < countGe c l
+  | _, [], h => by simp at h
+  | c, some m :: r, h => by
+    simp only [List.mem_cons, Option.some.injEq] at h
+    have hle := countGe_succ_le c r
+    simp only [countGe]
+    rcases h with rfl | h
+    · split <;> split <;> omega
+    · have := countGe_succ_lt c r h
+      split <;> split <;> omega
+  | c, none :: r, h => by
+    simp only [List.mem_cons] at h
+    rcases h with h | h
+    · cases h
+    · simpa [countGe] using countGe_succ_lt c r h
+
+theorem dataMidFrom_spec : ∀ (f : Nat) (c : Int) (ids : List (Option Int)), countGe c ids < f →
+    some (dataMidFrom f c ids) ∉ ids ∧ c ≤ dataMidFrom f c ids
+  | 0, _, _, h => by omega
+  | f + 1, c, ids, h => by
+    simp only [dataMidFrom]
+    split
+    · rename_i hc
+      have hmem : some c ∈ ids := by simpa using hc
+      have := countGe_succ_lt c ids hmem
+      have ih := dataMidFrom_spec f (c + 1) ids (by omega)
+      exact ⟨ih.1, by omega⟩
+    · rename_i hc
+      exact ⟨by simpa using hc, by omega⟩
+
+/-- `dataMediaSectionMid` returns a number that no section uses -/
+theorem dataMid_fresh (ids : List (Option Int)) : some (dataMid ids) ∉ ids :=
+  (dataMidFrom_spec _ _ ids (by have := countGe_le_length ids.length ids; omega)).1
 
 /-! ### the invariant kept by every call -/
 
@@ -222,8 +332,9 @@ def SenderOk (e : Engine) (k : Kind) (sd : Sender) : Prop :=
 def TrOk (e : Engine) (t : Transceiver) : Prop := ∀ sd, t.sender = some sd → SenderOk e t.kind sd
 
 structure Inv (s : St) : Prop where
-  mids : MidsFrom 0 s.trs
-  greater : s.greaterMid = (assigned s.trs : Int) - 1
+  sorted : Sorted (-1) s.trs
+  bounded : Bounded s.greaterMid s.trs
+  low : -1 ≤ s.greaterMid
   senders : ∀ t ∈ s.trs, TrOk s.eng t
   fresh : 0 < s.nextSsrc
 
@@ -260,16 +371,16 @@ theorem findReusable_spec : ∀ (k : Kind) (l : List Transceiver) (i : Nat), fin
 
 theorem inv_congr (s s' : St) (hi : Inv s) (ht : s'.trs = s.trs) (hg : s'.greaterMid = s.greaterMid)
     (he : s'.eng = s.eng) (hn : 0 < s'.nextSsrc) : Inv s' :=
-  ⟨ht ▸ hi.mids, by rw [hg, ht]; exact hi.greater, by rw [ht, he]; exact hi.senders, hn⟩
+  ⟨ht ▸ hi.sorted, by rw [hg, ht]; exact hi.bounded, by rw [hg]; exact hi.low,
+   by rw [ht, he]; exact hi.senders, hn⟩
 
 theorem inv_set (s s' : St) (i : Nat) (t t' : Transceiver) (hi : Inv s) (hget : s.trs[i]? = some t)
     (ht : s'.trs = s.trs.set i t') (hmid : t'.mid = t.mid) (hok : TrOk s.eng t')
     (hg : s'.greaterMid = s.greaterMid) (he : s'.eng = s.eng) (hn : 0 < s'.nextSsrc) : Inv s' := by
   have hm := map_mid_set s.trs i t t' hget hmid
-  refine ⟨?_, ?_, ?_, hn⟩
-  · rw [ht]; exact midsFrom_congr 0 _ _ hm.symm hi.mids
-  · rw [hg, ht, assigned_congr _ _ hm]
-    exact hi.greater
+  refine ⟨?_, ?_, by rw [hg]; exact hi.low, ?_, hn⟩
+  · rw [ht]; exact sorted_congr (-1) _ _ hm.symm hi.sorted
+  · rw [hg, ht]; exact bounded_congr _ _ _ hm.symm hi.bounded
   · rw [ht, he]
     intro u hu
     rcases List.mem_or_eq_of_mem_set hu with h | rfl
@@ -279,10 +390,14 @@ theorem inv_set (s s' : St) (i : Nat) (t t' : Transceiver) (hi : Inv s) (hget : 
 theorem inv_append (s s' : St) (t : Transceiver) (hi : Inv s) (hmid : t.mid = none)
     (hok : TrOk s.eng t) (ht : s'.trs = s.trs ++ [t])
     (hg : s'.greaterMid = s.greaterMid) (he : s'.eng = s.eng) (hn : 0 < s'.nextSsrc) : Inv s' := by
-  refine ⟨?_, ?_, ?_, hn⟩
-  · rw [ht]; exact midsFrom_append_none 0 _ _ hmid hi.mids
-  · rw [hg, ht, assigned_append_none _ _ hmid]
-    exact hi.greater
+  refine ⟨?_, ?_, by rw [hg]; exact hi.low, ?_, hn⟩
+  · rw [ht]; exact sorted_append_none (-1) _ _ hmid hi.sorted
+  · rw [hg, ht]
+    intro u hu m hm
+    simp only [List.mem_append, List.mem_cons, List.mem_nil_iff, or_false] at hu
+    rcases hu with h | rfl
+    · exact hi.bounded u h m hm
+    · rw [hmid] at hm; cases hm
   · rw [ht, he]
     intro u hu
     simp only [List.mem_append, List.mem_cons, List.mem_nil_iff, or_false] at hu
@@ -322,15 +437,34 @@ theorem newTransceiverFromTrack_ok (e : Engine) (d : Dir) (tr : Track) (n ov : N
 
 /-! ### the `CreateOffer` loop -/
 
-/-- the state after the mid-assignment loop of `CreateOffer` -/
-def normal (s : St) : St := { s with trs := withMids 0 s.trs, greaterMid := (s.trs.length : Int) - 1 }
+/-- the state after the mid-assignment steps of `CreateOffer` -/
+def normal (s : St) : St := assignSt s
 
-theorem assign_eq_normal (s : St) (hi : Inv s) : assignSt s = normal s := by
-  have h := assignMids_spec s.trs 0 s.greaterMid hi.mids (by rw [hi.greater]; omega)
-  unfold assignSt
-  rw [h]
-  simp [normal]
-  omega
+/-- the value `greaterMid` is raised to before numbering -/
+def raised (s : St) : Int := raiseAll (raiseAll s.greaterMid s.pendingLocalMids) (s.trs.map (·.mid))
+
+theorem normal_eq (s : St) : normal s =
+    { s with trs := (numberMids s.trs (raised s)).1, greaterMid := (numberMids s.trs (raised s)).2 } := rfl
+
+theorem raised_ge (s : St) : s.greaterMid ≤ raised s := by
+  have h1 := raiseAll_ge s.pendingLocalMids s.greaterMid
+  have h2 := raiseAll_ge (s.trs.map (·.mid)) (raiseAll s.greaterMid s.pendingLocalMids)
+  unfold raised; omega
+
+theorem normal_spec (s : St) (hi : Inv s) :
+    Sorted (-1) (normal s).trs ∧ Bounded (normal s).greaterMid (normal s).trs ∧
+    raised s ≤ (normal s).greaterMid ∧ ∀ t ∈ (normal s).trs, t.mid.isSome = true := by
+  have hg := raised_ge s
+  have hb : Bounded (raised s) s.trs := fun t ht m hm => by have := hi.bounded t ht m hm; omega
+  exact numberMids_spec s.trs (-1) (raised s) hi.sorted hb (by have := hi.low; omega)
+
+theorem normal_rel (s : St) : All₂ (fun t t' => t' = { t with mid := t'.mid }) s.trs (normal s).trs :=
+  numberMids_rel s.trs (raised s)
+
+theorem normal_inj (s : St) (hi : Inv s) : ∀ t ∈ (normal s).trs, ∀ u ∈ (normal s).trs, t.mid = u.mid → t = u := by
+  obtain ⟨hs, _, _, hsome⟩ := normal_spec s hi
+  intro t ht u hu he
+  exact sorted_inj (-1) _ hs t ht u hu he (hsome t ht)
 
 theorem trOk_of_mid_update (e : Engine) (t t' : Transceiver) (h : t' = { t with mid := t'.mid }) (ht : TrOk e t) :
     TrOk e t' := by
@@ -339,46 +473,60 @@ theorem trOk_of_mid_update (e : Engine) (t t' : Transceiver) (h : t' = { t with 
   exact ht sd hsd
 
 theorem inv_normal (s : St) (hi : Inv s) : Inv (normal s) := by
-  refine ⟨midsFrom_withMids 0 _, ?_, ?_, hi.fresh⟩
-  · simp [normal, assigned_withMids]
-  · intro t' ht'
-    obtain ⟨t, ht, hr⟩ := (withMids_forall₂ 0 s.trs).exists_left t' ht'
-    exact trOk_of_mid_update _ t t' hr (hi.senders t ht)
+  obtain ⟨h1, h2, h3, _⟩ := normal_spec s hi
+  refine ⟨h1, h2, by have := raised_ge s; have := hi.low; omega, ?_, hi.fresh⟩
+  intro t' ht'
+  obtain ⟨t, ht, hr⟩ := (normal_rel s).exists_left t' ht'
+  exact trOk_of_mid_update _ t t' hr (hi.senders t ht)
 
-theorem normal_normal (s : St) : normal (normal s) = normal s := by
-  simp [normal, withMids_idem, withMids_length]
+theorem normal_normal (s : St) (hi : Inv s) : normal (normal s) = normal s := by
+  obtain ⟨_, hb, hge, hsome⟩ := normal_spec s hi
+  have hpend : raiseAll (normal s).greaterMid (normal s).pendingLocalMids = (normal s).greaterMid := by
+    apply raiseAll_eq
+    intro x hx
+    have h1 : x ≤ raiseAll s.greaterMid s.pendingLocalMids := raiseAll_mem _ _ x hx
+    have h2 := raiseAll_ge (s.trs.map (·.mid)) (raiseAll s.greaterMid s.pendingLocalMids)
+    unfold raised at hge; omega
+  have hr : raised (normal s) = (normal s).greaterMid := by
+    unfold raised
+    rw [hpend]
+    apply raiseAll_eq
+    intro x hx
+    obtain ⟨t, ht, hm⟩ := List.mem_map.1 hx
+    exact hb t ht x hm
+  rw [normal_eq (normal s), hr, numberMids_id _ _ hsome]
 
-theorem offerLoop_zero (s : St) (hi : Inv s) : offerLoop 0 s =
+theorem offerLoop_zero (s : St) : offerLoop 0 s =
     match generate (normal s) with
     | .error e => (normal s, .error e)
     | .ok o =>
-      if !changed (normal s).trs o then ({ normal s with haveOffer := true }, .ok o)
+      if !changed (normal s).trs o then ({ normal s with haveOffer := true, lastOfferMids := offerMids o }, .ok o)
       else (normal s, .error .retries) := by
-  rw [offerLoop]; simp only [assign_eq_normal s hi]; rfl
+  rw [offerLoop]; rfl
 
-theorem offerLoop_succ (f : Nat) (s : St) (hi : Inv s) : offerLoop (f + 1) s =
+theorem offerLoop_succ (f : Nat) (s : St) : offerLoop (f + 1) s =
     match generate (normal s) with
     | .error e => (normal s, .error e)
     | .ok o =>
-      if !changed (normal s).trs o then ({ normal s with haveOffer := true }, .ok o)
+      if !changed (normal s).trs o then ({ normal s with haveOffer := true, lastOfferMids := offerMids o }, .ok o)
       else offerLoop f (normal s) := by
-  rw [offerLoop]; simp only [assign_eq_normal s hi]; rfl
+  rw [offerLoop]; rfl
 
-/-- What a run of the loop returns: on success the renumbered state with `lastOffer` set, a description
+/-- What a run of the loop returns: on success the numbered state with `lastOffer` set, a description
     generated from exactly that state, which `hasLocalDescriptionChanged` accepted. -/
 theorem offerLoop_spec : ∀ (fuel : Nat) (s : St), Inv s →
     match offerLoop fuel s with
-    | (s', .ok o) => s' = { normal s with haveOffer := true } ∧ generate (normal s) = .ok o ∧
-                      changed (normal s).trs o = false
+    | (s', .ok o) => s' = { normal s with haveOffer := true, lastOfferMids := offerMids o } ∧
+                      generate (normal s) = .ok o ∧ changed (normal s).trs o = false
     | (s', .error _) => s' = normal s
   | 0, s, hi => by
-    rw [offerLoop_zero s hi]
+    rw [offerLoop_zero s]
     cases hg : generate (normal s) with
     | error e => simp
     | ok o =>
       cases hc : changed (normal s).trs o <;> simp [hc]
   | f + 1, s, hi => by
-    rw [offerLoop_succ f s hi]
+    rw [offerLoop_succ f s]
     cases hg : generate (normal s) with
     | error e => simp
     | ok o =>
@@ -387,11 +535,12 @@ theorem offerLoop_spec : ∀ (fuel : Nat) (s : St), Inv s →
       | true =>
         simp only [hc, Bool.not_true, Bool.false_eq_true, if_false]
         have ih := offerLoop_spec f (normal s) (inv_normal s hi)
-        rw [normal_normal, hg] at ih
+        rw [normal_normal s hi, hg] at ih
         exact ih
 
 theorem createOffer_ok (s s' : St) (o : Offer) (hi : Inv s) (h : createOffer s = (s', .ok o)) :
-    s' = { normal s with haveOffer := true } ∧ generate (normal s) = .ok o ∧ changed (normal s).trs o = false := by
+    s' = { normal s with haveOffer := true, lastOfferMids := offerMids o } ∧ generate (normal s) = .ok o ∧
+    changed (normal s).trs o = false := by
   have := offerLoop_spec 127 s hi
   unfold createOffer at h
   rw [h] at this
@@ -404,14 +553,13 @@ theorem createOffer_err (s s' : St) (e : Err) (hi : Inv s) (h : createOffer s = 
   rw [h] at this
   exact this
 
-theorem inv_haveOffer (s : St) (b : Bool) (hi : Inv s) : Inv { s with haveOffer := b } :=
-  ⟨hi.mids, hi.greater, hi.senders, hi.fresh⟩
-
 theorem inv_createOffer (s : St) (hi : Inv s) : Inv (createOffer s).1 := by
   cases h : createOffer s with
   | mk s' r =>
     cases r with
-    | ok o => rw [(createOffer_ok s s' o hi h).1]; exact inv_haveOffer _ _ (inv_normal s hi)
+    | ok o =>
+      rw [(createOffer_ok s s' o hi h).1]
+      exact inv_congr (normal s) _ (inv_normal s hi) rfl rfl rfl hi.fresh
     | error e => rw [createOffer_err s s' e hi h]; exact inv_normal s hi
 
 /-! ### every call keeps the invariant, the engine and the configuration -/
@@ -619,7 +767,7 @@ theorem inv_step (s : St) (op : Op) (hi : Inv s) : Inv (step s op).1 := by
       · exact inv_congr s _ hi rfl rfl rfl hi.fresh
 
 theorem inv_init (e : Engine) (a : Bool) : Inv (init e a) :=
-  ⟨trivial, rfl, by intro t ht; simp [init] at ht, by simp [init]⟩
+  ⟨trivial, by intro t ht; simp [init] at ht, by simp [init], by intro t ht; simp [init] at ht, by simp [init]⟩
 
 theorem inv_runOps : ∀ (ops : List Op) (s : St), Inv s → Inv (runOps s ops).1
   | [], _, hi => hi
@@ -660,9 +808,23 @@ theorem section_basic (e : Engine) (t : Transceiver) (sec : Section) (h : transc
     · cases h
     · cases h; simp at hr
 
+/-- every section, rejected or not, carries the transceiver's mid; a rejected one has no direction -/
+theorem section_mid (e : Engine) (t : Transceiver) (sec : Section) (h : transceiverSection e t = .ok sec) :
+    sec.mid = t.mid ∧ (sec.rejected = true → sec.dirs = []) := by
+  unfold transceiverSection at h
+  split at h
+  · split at h
+    · cases h; exact ⟨rfl, by simp⟩
+    · split at h
+      · cases h; exact ⟨rfl, by simp⟩
+      · cases h; exact ⟨rfl, by simp⟩
+  · split at h
+    · cases h
+    · cases h; exact ⟨rfl, fun _ => rfl⟩
+
 theorem generate_ok (s : St) (o : Offer) (h : generate s = .ok o) :
     sectionsOf s.eng s.trs = .ok o.media ∧
-    o.app = (if s.always || s.dcRequested != 0 then some (s.trs.length : Int) else none) := by
+    o.app = (if s.always || s.dcRequested != 0 then some (dataMid (s.trs.map (·.mid))) else none) := by
   unfold generate at h
   split at h
   · cases h
@@ -671,15 +833,15 @@ theorem generate_ok (s : St) (o : Offer) (h : generate s = .ok o) :
     exact ⟨hs, rfl⟩
 
 theorem lookupDir_some (o : Offer) (mid : Option Int) (d : Option Dir) (h : lookupDir o mid = some d) :
-    (∃ sec ∈ o.media, sec.rejected = false ∧ sec.mid = mid ∧ d = sec.dirs.head?) ∨
+    (∃ sec ∈ o.media, sec.mid = mid ∧ d = sec.dirs.head?) ∨
     (o.app.isSome = true ∧ o.app = mid ∧ d = some .sendrecv) := by
   unfold lookupDir at h
-  cases hf : o.media.find? (fun sec => !sec.rejected && sec.mid == mid) with
+  cases hf : o.media.find? (fun sec => sec.mid == mid) with
   | some sec =>
     simp only [hf, Option.some.injEq] at h
     have hp := List.find?_some hf
-    simp only [Bool.and_eq_true, Bool.not_eq_true', beq_iff_eq] at hp
-    exact Or.inl ⟨sec, List.mem_of_find?_eq_some hf, hp.1, hp.2, h.symm⟩
+    simp only [beq_iff_eq] at hp
+    exact Or.inl ⟨sec, List.mem_of_find?_eq_some hf, hp, h.symm⟩
   | none =>
     simp only [hf] at h
     split at h
@@ -688,6 +850,16 @@ theorem lookupDir_some (o : Offer) (mid : Option Int) (d : Option Dir) (h : look
       simp only [Option.some.injEq] at h
       exact Or.inr ⟨hc.1, hc.2, h.symm⟩
     · cases h
+
+/-- the application section's mid is not the mid of any transceiver -/
+theorem app_fresh (s : St) (o : Offer) (hg : generate s = .ok o) :
+    ∀ t ∈ s.trs, t.mid.isSome = true → o.app ≠ t.mid := by
+  intro t ht hsome heq
+  obtain ⟨_, happ⟩ := generate_ok _ _ hg
+  rw [happ] at heq
+  split at heq
+  · exact dataMid_fresh (s.trs.map (·.mid)) (by rw [heq]; exact List.mem_map.2 ⟨t, ht, rfl⟩)
+  · rw [← heq] at hsome; cases hsome
 
 theorem changed_false (ts : List Transceiver) (o : Offer) (h : changed ts o = false) :
     ∀ t ∈ ts, lookupDir o t.mid = some (some t.dir) := by
@@ -698,33 +870,28 @@ theorem changed_false (ts : List Transceiver) (o : Offer) (h : changed ts o = fa
   | none => simp [hl] at this
   | some d => simpa [hl] using this
 
-/-- `hasLocalDescriptionChanged` accepted the description, hence no section is the bare rejected line -/
-theorem no_rejected (s : St) (o : Offer) (hg : generate (normal s) = .ok o)
+/-- `hasLocalDescriptionChanged` accepted the description, hence no section is a rejected one (a rejected
+    section has the transceiver's mid but no direction attribute) -/
+theorem no_rejected (s : St) (hi : Inv s) (o : Offer) (hg : generate (normal s) = .ok o)
     (hc : changed (normal s).trs o = false) :
     ∀ t ∈ (normal s).trs, ∀ sec, transceiverSection s.eng t = .ok sec → sec.rejected = false := by
   intro t ht sec hsec
-  obtain ⟨hsecs, happ⟩ := generate_ok _ _ hg
+  obtain ⟨hsecs, _⟩ := generate_ok _ _ hg
   have hall := sectionsOf_all₂ _ _ _ hsecs
   have hl := changed_false _ _ hc t ht
-  rcases lookupDir_some _ _ _ hl with ⟨sec', hmem, hrej, hmid, _⟩ | ⟨hsome, happmid, _⟩
+  have hsome := (normal_spec s hi).2.2.2 t ht
+  rcases lookupDir_some _ _ _ hl with ⟨sec', hmem, hmid, hd⟩ | ⟨_, happmid, _⟩
   · obtain ⟨t', ht', hsec'⟩ := hall.exists_left sec' hmem
-    have hb := section_basic _ _ _ hsec' hrej
-    have : t' = t := withMids_mid_inj 0 s.trs t' t ht' ht (by rw [← hb.1, hmid])
+    have hm' := section_mid _ _ _ hsec'
+    have : t' = t := normal_inj s hi t' ht' t ht (by rw [← hm'.1, hmid])
     subst this
     have hn : (normal s).eng = s.eng := rfl
     rw [hn, hsec] at hsec'
     cases hsec'
-    exact hrej
-  · exfalso
-    obtain ⟨m, hm, _, hlt⟩ := withMids_mid_range 0 s.trs t ht
-    rw [happ] at happmid hsome
-    split at happmid
-    · rw [hm] at happmid
-      simp only [Option.some.injEq] at happmid
-      have : ((normal s).trs.length : Int) = s.trs.length := by simp [normal, withMids_length]
-      omega
-    · rw [hm] at happmid
-      cases happmid
+    cases hr : sec.rejected with
+    | false => rfl
+    | true => rw [hm'.2 hr] at hd; cases hd
+  · exact absurd happmid (app_fresh _ _ hg t ht hsome)
 
 /-- content of a non-rejected section as far as the sender is concerned -/
 theorem section_sender (e : Engine) (t : Transceiver) (sec : Section) (h : transceiverSection e t = .ok sec)
@@ -769,25 +936,24 @@ theorem sectionsOf_ok (e : Engine) : ∀ (ts : List Transceiver), (∀ t ∈ ts,
     obtain ⟨secs, hsecs⟩ := sectionsOf_ok e ts (fun u hu => h u (by simp [hu]))
     exact ⟨sec :: secs, by simp [sectionsOf, hsec, hsecs]⟩
 
-theorem withMids_kind {P : Kind → Prop} (a : Int) (ts : List Transceiver) (h : ∀ t ∈ ts, P t.kind) :
-    ∀ t ∈ withMids a ts, P t.kind := by
+theorem normal_kind {P : Kind → Prop} (s : St) (h : ∀ t ∈ s.trs, P t.kind) : ∀ t ∈ (normal s).trs, P t.kind := by
   intro t' ht'
-  obtain ⟨t, ht, hr⟩ := (withMids_forall₂ a ts).exists_left t' ht'
+  obtain ⟨t, ht, hr⟩ := (normal_rel s).exists_left t' ht'
   rw [hr]
   exact h t ht
 
 /-- with a codec for every transceiver's kind the description is generated and accepted at the first attempt -/
-theorem offer_accepted (s : St) (h : ∀ t ∈ s.trs, s.eng.hasCodecs t.kind = true) :
+theorem offer_accepted (s : St) (hi : Inv s) (h : ∀ t ∈ s.trs, s.eng.hasCodecs t.kind = true) :
     ∃ o, generate (normal s) = .ok o ∧ changed (normal s).trs o = false := by
   have hk : ∀ t ∈ (normal s).trs, (normal s).eng.hasCodecs t.kind = true :=
-    withMids_kind (P := fun k => s.eng.hasCodecs k = true) 0 s.trs h
+    normal_kind (P := fun k => s.eng.hasCodecs k = true) s h
   obtain ⟨secs, hsecs⟩ := sectionsOf_ok (normal s).eng (normal s).trs hk
-  have hall := sectionsOf_all₂ _ _ _ hsecs
   have hgen : ∃ o, generate (normal s) = .ok o ∧ o.media = secs := by
     simp only [generate, hsecs]
     exact ⟨_, rfl, rfl⟩
   obtain ⟨o, hgo, hmedia⟩ := hgen
   subst hmedia
+  have hall := sectionsOf_all₂ _ _ _ hsecs
   refine ⟨o, hgo, ?_⟩
   unfold changed
   apply List.any_eq_false.2
@@ -796,19 +962,39 @@ theorem offer_accepted (s : St) (h : ∀ t ∈ s.trs, s.eng.hasCodecs t.kind = t
   obtain ⟨sec0, hsec0, hrej0⟩ := transceiverSection_ok _ t (hk t ht)
   rw [hsec] at hsec0; cases hsec0
   have hb := section_basic _ _ _ hsec hrej0
-  have hfound : (o.media.find? (fun x => !x.rejected && x.mid == t.mid)).isSome = true := by
+  have hfound : (o.media.find? (fun x => x.mid == t.mid)).isSome = true := by
     rw [List.find?_isSome]
-    exact ⟨sec, hmem, by simp [hrej0, hb.1]⟩
-  cases hf : o.media.find? (fun x => !x.rejected && x.mid == t.mid) with
+    exact ⟨sec, hmem, by simp [hb.1]⟩
+  cases hf : o.media.find? (fun x => x.mid == t.mid) with
   | none => rw [hf] at hfound; cases hfound
   | some sec' =>
     have hp := List.find?_some hf
-    simp only [Bool.and_eq_true, Bool.not_eq_true', beq_iff_eq] at hp
+    simp only [beq_iff_eq] at hp
     obtain ⟨t', ht', hsec'⟩ := hall.exists_left sec' (List.mem_of_find?_eq_some hf)
-    have hb' := section_basic _ _ _ hsec' hp.1
-    have : t' = t := withMids_mid_inj 0 s.trs t' t ht' ht (by rw [← hb'.1, hp.2])
+    have hm' := section_mid _ _ _ hsec'
+    have : t' = t := normal_inj s hi t' ht' t ht (by rw [← hm'.1, hp])
     subst this
-    simp [lookupDir, hf, hb'.2.2.1]
+    rw [hsec] at hsec'; cases hsec'
+    simp [lookupDir, hf, hb.2.2.1]
+
+/-- a connection whose transceivers (all with a mid), engine and data-channel settings are those of a state
+    whose description was accepted produces that same description -/
+theorem offer_again (n a : St) (o : Offer) (hg : generate n = .ok o) (hc : changed n.trs o = false)
+    (hsome : ∀ t ∈ n.trs, t.mid.isSome = true) (h1 : a.eng = n.eng) (h2 : a.trs = n.trs)
+    (h3 : a.always = n.always) (h4 : a.dcRequested = n.dcRequested) : (createOffer a).2 = .ok o := by
+  have htrs : (normal a).trs = n.trs := by
+    rw [normal_eq]
+    show (numberMids a.trs _).1 = _
+    rw [h2, numberMids_id _ _ hsome]
+  have hgen : generate (normal a) = .ok o := by
+    rw [← hg]
+    have e1 : (normal a).eng = n.eng := h1
+    have e3 : (normal a).always = n.always := h3
+    have e4 : (normal a).dcRequested = n.dcRequested := h4
+    simp only [generate, e1, htrs, e3, e4]
+  unfold createOffer
+  rw [offerLoop_succ 126 a, hgen]
+  simp only [htrs, hc, Bool.not_false, if_true]
 
 /-! ### frame: the engine, the configuration flag and the data-channel counter -/
 
@@ -827,29 +1013,6 @@ theorem offerLoop_frame : ∀ (fuel : Nat) (s : St),
     · split
       · exact ⟨rfl, rfl, rfl⟩
       · exact offerLoop_frame f (assignSt s)
-
-/-- `SetLocalDescription(offer)` only moves the signaling state, which `CreateOffer` never reads -/
-theorem offerLoop_localOffer (b : Bool) : ∀ (fuel : Nat) (s : St),
-    offerLoop fuel { s with localOffer := b } =
-      ({ (offerLoop fuel s).1 with localOffer := b }, (offerLoop fuel s).2)
-  | 0, s => by
-    rw [offerLoop, offerLoop]
-    have h1 : assignSt { s with localOffer := b } = { assignSt s with localOffer := b } := rfl
-    have h2 : generate { assignSt s with localOffer := b } = generate (assignSt s) := rfl
-    simp only [h1, h2]
-    split
-    · rfl
-    · split <;> rfl
-  | f + 1, s => by
-    rw [offerLoop, offerLoop]
-    have h1 : assignSt { s with localOffer := b } = { assignSt s with localOffer := b } := rfl
-    have h2 : generate { assignSt s with localOffer := b } = generate (assignSt s) := rfl
-    simp only [h1, h2]
-    split
-    · rfl
-    · split
-      · rfl
-      · exact offerLoop_localOffer b f (assignSt s)
 
 /-- the call is a `CreateDataChannel` that returned a channel -/
 def dcCreated : Op → Res → Bool
@@ -962,31 +1125,20 @@ theorem keeps_append (ts : List Transceiver) (x : Transceiver) : Keeps ts (ts ++
   rw [hs] at hs'; cases hs'
   exact List.prefix_refl _
 
-theorem withMids_getElem? : ∀ (a : Int) (ts : List Transceiver) (i : Nat) (t' : Transceiver),
-    (withMids a ts)[i]? = some t' → ∃ t, ts[i]? = some t ∧ t'.sender = t.sender
-  | _, [], _, _, h => by simp [withMids] at h
-  | a, t :: ts, 0, t', h => by
-    simp [withMids] at h; subst h; exact ⟨t, rfl, rfl⟩
-  | a, t :: ts, i + 1, t', h => by
-    simp only [withMids, List.getElem?_cons_succ] at h
-    obtain ⟨u, hu, hs⟩ := withMids_getElem? (a + 1) ts i t' h
-    exact ⟨u, by simpa using hu, hs⟩
-
-theorem keeps_withMids (a : Int) (ts : List Transceiver) : Keeps ts (withMids a ts) := by
+theorem keeps_normal (s : St) : Keeps s.trs (normal s).trs := by
   intro i t t' sd sd' h h' hs hs'
-  obtain ⟨u, hu, hsu⟩ := withMids_getElem? a ts i t' h'
-  rw [h] at hu; cases hu
-  rw [hsu, hs] at hs'; cases hs'
+  have hr := (normal_rel s).getElem? i t t' h h'
+  rw [hr] at hs'
+  simp only at hs'
+  rw [hs] at hs'; cases hs'
   exact List.prefix_refl _
-
-theorem keeps_trans_normal (s : St) : Keeps s.trs (normal s).trs := keeps_withMids 0 s.trs
 
 theorem keeps_createOffer (s : St) (hi : Inv s) : Keeps s.trs (createOffer s).1.trs := by
   cases h : createOffer s with
   | mk s' r =>
     cases r with
-    | ok o => rw [(createOffer_ok s s' o hi h).1]; exact keeps_trans_normal s
-    | error e => rw [createOffer_err s s' e hi h]; exact keeps_trans_normal s
+    | ok o => rw [(createOffer_ok s s' o hi h).1]; exact keeps_normal s
+    | error e => rw [createOffer_err s s' e hi h]; exact keeps_normal s
 
 theorem replaceTrack_ssrcs (sd sd' : Sender) (tr : Option Track) (h : sd.replaceTrack tr = .ok sd') :
     sd'.ssrcs = sd.ssrcs := by
